@@ -1556,8 +1556,12 @@ class SerEval:
                 return "str" in names
             if isinstance(v, Obj):
                 return v.cls in names or any(k.name in names for k in (self.repo.mro(v.ci) if v.ci else []))
-            if isinstance(v, (BV, Lin)) or (isinstance(v, int) and not isinstance(v, bool)):
+            if isinstance(v, (BV, Lin, SBV)) or (isinstance(v, int) and not isinstance(v, bool)):
                 return "int" in names
+            if isinstance(v, bool):
+                return "bool" in names or "int" in names
+            if isinstance(v, float):
+                return "float" in names
             if isinstance(v, Bytes):
                 return "bytes" in names or "bytearray" in names
             if isinstance(v, tuple):
